@@ -289,6 +289,13 @@ def dispatch (op : String) (args : List String) : String :=
     | _, _, _, _ => "bad-op"
   | "spec.onsegment", _ | "spec.onray", _ | "spec.intriangle", _ | "spec.inpolygon", _ | "spec.shoelace2", _
   | "spec.vecarea2", _ | "spec.centroidnum", _ => opShapes op args
+  | "spec.quadform", [a, p] => match parseTens a, parseVec p with
+    | some a, some p =>
+      -- pᵀ A p
+      let n := p.length
+      let v := sumRange n fun i => sumRange n fun j => p.getD i 0 * a.get [i, j] * p.getD j 0
+      "ok " ++ showQ v
+    | _, _ => "bad-op"
   | "ixmap", r :: comps => match r.toNat?, comps.mapM parseIx with
     | some r, some cs => showMapping (indexMapping r cs)
     | _, _ => "bad-op"
